@@ -200,7 +200,7 @@ def call_value(I: Interp, f, args, kwargs, node=None):
         c = V.contract_for(qual)
         if c is not None and V.current_target != qual:
             return V.apply_contract(I, c, args, kwargs, node, fnode=fn, closure=f)
-        if c is not None and V.current_target == qual and I.depth > 0 and any(fr.qual == qual for fr in I.frames):
+        if c is not None and V.current_target == qual and any(fr.qual == qual for fr in I.frames):
             return V.apply_contract(I, c, args, kwargs, node, fnode=fn, closure=f)
         bound = bind_args(fn, args, kwargs, I, f.env, f.frame) if not isinstance(fn, ast.Lambda) else dict(zip([a.arg for a in fn.args.args], args))
         return run_function(I, qual, fn, f.frame.module, f.frame.cls, bound, f.env)
@@ -217,7 +217,8 @@ def call_value(I: Interp, f, args, kwargs, node=None):
         qual = f.qual
         pol = V.callee_policy(I, qual)
         if pol == "contract":
-            return V.apply_contract(I, V.contract_for(qual) or V.c, args, kwargs, node, fnode=f.node)
+            recv = f.bound_self if isinstance(f.bound_self, Obj) else None
+            return V.apply_contract(I, V.contract_for(qual, recv) or V.c, args, kwargs, node, fnode=f.node)
         if pol == "inline":
             bound = bind_args(f.node, args, kwargs, I, Env(), Frame(qual, f.node, f.module, f.cls))
             return run_function(I, qual, f.node, f.module, f.cls, bound)
@@ -241,6 +242,8 @@ def call_value(I: Interp, f, args, kwargs, node=None):
 
 
 def b_len(I, v):
+    if v is _UNBOUND and I.V.in_contract_expr:
+        return -1  # an unassigned field has no length: clauses comparing it with a real length are false
     if isinstance(v, SList):
         return v.n if isinstance(v.n, int) else SV(v.n, INT)
     if isinstance(v, PyList):
@@ -281,6 +284,8 @@ def b_reversed(I, v):
 def b_iter(I, v):
     if isinstance(v, Iter):
         return v
+    if isinstance(v, Obj) and v.cls == "generator":
+        return Iter("list", [v])
     return Iter("list", [v])
 
 
